@@ -226,8 +226,10 @@ def _maximise_utility_duty(
     Q_tt = np.full_like(Q_pot_valid, np.inf, dtype=float)
     slope_mask = (-dt_tar_valid) > tol
     if np.any(slope_mask):
+        # heat the process can take up to the row whose temperature sets the slope limit
+        Q_cur_valid = (current_H - Q_assigned)[valid_mask]
         Q_tt[slope_mask] = (
-            Q_pot_valid[slope_mask]
+            np.maximum(Q_cur_valid[slope_mask], 0.0)
             / (-dt_tar_valid[slope_mask])
             * abs(Tt - Ts)
         )
